@@ -61,6 +61,35 @@ RULE_AMB = ("stream AMB: packets of stream DEC (each offered to all 16 decoders)
             "(offered to all 16 decoders: the 16 x 16 encoder/decoder matrix); distinct case lines are counted")
 
 HOOK_COMMITS = ["c3ab119"]
+
+# first number of a checker's output (decimal) -> what it means
+CLAUSES = {
+    1: "C03: decoded value differs from the event sent / C05: decoder panicked", 2: "C03: error packet produced / C05: decoder hangs", 3: "C03: packet not addressed to the receiver / C05: value outside the domain (INVALID)",
+    4: "C03: own encoding rejected", 5: "C03: decoder panicked", 6: "C03: observation unparsable",
+    10: "C05: value outside the kind's domain", 11: "C05: value of another kind", 12: "C05: error packet accepted", 13: "C05: wrong event code accepted",
+    14: "C05: accepted length is not the layout's", 15: "C05: not stable under re-encoding", 16: "C05: unknown variant tag / non-boolean byte materialised",
+    20: "C05: reported rejection reason does not apply", 21: "C05: unknown error value",
+    30: "C11: decoder disagrees with the reference decoder", 31: "C11: packet is not the published layout",
+    41: "C12: two kinds accept the same packet", 42: "C12: another kind accepts the encoding of an event",
+    50: "C04: accepted frame is not well-formed", 51: "C04: re-encoding / reassembly of an accepted frame panics", 52: "C04: decoder panicked / hangs",
+    60: "C09: not the COBS encoding of the documented header + data", 61: "C09: delimiter byte emitted", 62: "C09: longer than 14 bytes", 63: "C09: decode(encode f) <> f", 64: "C09: encoder failed",
+    65: "C09: decoded fields differ from the layout", 66: "C09: valid encoding rejected", 67: "C09: size mismatch accepted", 68: "C09: decoder panicked",
+    70: "C08: not an extended data frame", 71: "C08: identifier layout", 72: "C08: payload differs from the data bytes", 73: "C08: decode(encode f) <> f", 74: "C08: encoder failed",
+    75: "C08: decoded fields differ from the layout", 76: "C08: frame wrongly rejected", 77: "C08: frame that must be rejected was accepted", 78: "C08: decoder panicked", 79: "C08: accepted although the layout demands a panic-free reject",
+    80: "C10: not the documented frame sequence", 81: "C10: fragmentation failed",
+    90: "C02: observation malformed", 91: "C02: path (0 direct, 1 CAN, 2 USART) did not rebuild the packet exactly at the last frame",
+    100: "C07: add_frame panicked", 101: "C07: accepted a frame that is not the exact next one", 102: "C07: rejected the exact next frame", 103: "C07: reported reason does not apply",
+    104: "C07: state / accounting / build differs from the reference", 109: "C07: surplus observation", 110: "C07: reassembly started by a non-start frame", 111: "C07: initial state wrong", 112: "C07: start frame rejected", 113: "C07: wrong rejection of a non-start frame", 114: "C07: new() panicked",
+    120: "C06: a poll panicked / hung / over-read", 121: "C06: the second probe packet was not delivered intact as the last result", 122: "C06: before it: neither probe 1 intact nor an error (altered / merged delivery)",
+    130: "C13: spurious error / panic", 131: "C13: delivered sequence differs from the packets sent", 132: "C13: polls do not end with 'nothing received'", 133: "C13: the sender failed",
+    140: "C19: heap exceeds 96 + 40 * frames held (held, announced, heap, tokens left)", 141: "C19: heap above the absolute bound, or not released after a delivery / reassembly error (class, heap, tokens left)", 142: "C19: heap grew without bound inside a poll that never returned (peak, before, tokens left)",
+    150: "C14/C15: see property (C14: USART bytes differ; C15: tick dispatch differs from the model on the same table)", 151: "C14: CAN frames handed over / result differ", 152: "C14: bytes on the link are not a prefix of the frames' bytes",
+    153: "C14: success reported although bytes are missing", 154: "C14: flush failure swallowed", 155: "C14: serial result differs", 156: "C14: observation malformed",
+    160: "C16: send_packet routing differs", 170: "C17: id of a registered handler handed out again", 171: "C17: registration failed", 172: "C17: remove result wrong", 173: "C17: delivery does not reach exactly the live handlers",
+    180: "C18: send error not returned before the wait callback", 181: "C18: result / trace / queue differ from the first-match (all-matches) scan", 182: "C18: send panicked",
+    190: "C01: registration count", 191: "C01: a send failed", 192: "C01: a tick failed", 193: "C01: number of deliveries (got, expected)", 194: "C01: wrong handler, order, packet or decoded value (offending log entry follows)", 195: "C01: the sender failed",
+    3054: "unparsable case or observation",
+}
 NOT_APPLICABLE = {}
 
 NOTE_COMMON = ("Proved of the hand-written Gallina model (no axioms; Print Assumptions audited on every run); the model is tied to the code by the "
